@@ -26,14 +26,23 @@ Theorem C05_prune_keeps_live_partial :
 Proof. exact prune_keeps_live_guarded. Qed.
 Print Assumptions C05_prune_keeps_live_partial.
 
+(** the same with the guard on the INPUTS only: every writing commit's abstract
+    state (C01's finite map) differs from the state of every earlier commit *)
+Theorem C05_prune_keeps_live_partial_inputs :
+  forall c ops, cfg_valid c = true -> ops_valid c init_mstate ops = true ->
+    linear_changing c init_mstate ops = true ->
+    live_readable c (mrun c ops).
+Proof. exact prune_keeps_live_changing. Qed.
+Print Assumptions C05_prune_keeps_live_partial_inputs.
+
 (** the guard is satisfiable by a history on which pruning deletes old versions *)
 Theorem C05_guard_nonvacuous :
   cfg_valid cfg2 = true /\ ops_valid cfg2 init_mstate ex_ops = true /\
-  linear_fresh cfg2 init_mstate ex_ops = true /\
+  linear_fresh cfg2 init_mstate ex_ops = true /\ linear_changing cfg2 init_mstate ex_ops = true /\
   map (fun i => read_at (mrun cfg2 ex_ops) i ka) [0; 1; 2]%nat = [None; None; None] /\
   live (prune_height cfg2) (ms_ac (mrun cfg2 ex_ops)) = [6; 5; 4]%nat.
 Proof.
-  destruct ex_valid as [A [B C]]. destruct ex_pruned as [D [E _]]. auto.
+  destruct ex_valid as [A [B C]]. destruct ex_pruned as [D [E _]]. pose proof ex_changing. auto 10.
 Qed.
 Print Assumptions C05_guard_nonvacuous.
 
